@@ -2,6 +2,7 @@ package wasi_snapshot_preview1
 
 import (
 	"context"
+	"math"
 	"time"
 
 	"github.com/tetratelabs/wazero/api"
@@ -60,6 +61,11 @@ func pollOneoffFn(_ context.Context, mod api.Module, params []uint64) sys.Errno 
 	}
 
 	mem := mod.Memory()
+
+	// nsubscriptions*48 must not overflow 32 bits: no memory can hold that many.
+	if uint64(nsubscriptions)*48 > math.MaxUint32 {
+		return sys.EFAULT
+	}
 
 	// Ensure capacity prior to the read loop to reduce error handling.
 	inBuf, ok := mem.Read(in, nsubscriptions*48)
